@@ -21,17 +21,33 @@ void _ZN3tbb6detail2r124cache_aligned_deallocateEPv(u8* p) {
   for (int i = 0; i < NPOOL; i++) if (p == (u8*)&vp_pool[i]) return;
   if (p == (u8*)&vp_ctxlist_obj) return;
   free(p); }
-/* allocate_memory: tbb_exception_ptr (8 bytes; counted) and the nodes of the dispatcher's reference-vertex map (24 bytes) */
-int n_eptr_alloc, n_eptr_free; u8* vp_eptr_mem[4];
+/* allocate_memory: tbb_exception_ptr (8 bytes; tracked) and the nodes of the dispatcher's reference-vertex map (24 bytes).
+   cbmc's free() contains a nondeterministic choice (= a path fork per call with --paths): released storage is tracked here instead
+   (double release / release of a foreign pointer are assertions) and zeroed, so that a later use of a destroyed tbb_exception_ptr shows
+   up as a null exception_ptr; the native replay build really frees (ASan) */
+#define VP_MAXEPTR 4
+int n_eptr_alloc, n_eptr_free; u8* vp_eptr_mem[VP_MAXEPTR]; u8 vp_eptr_live[VP_MAXEPTR];
+#define VP_MAXNODE 6
+int n_node_alloc; u8* vp_node_mem[VP_MAXNODE];
 u8* _ZN3tbb6detail2r115allocate_memoryEm(u64 n) {
   VP_ASSERT(n <= 64, "VP bound: allocate_memory size");
   u8* p = malloc(n); __CPROVER_assume(p != 0);
-  if (n == 8) { VP_ASSERT(n_eptr_alloc < 4, "VP bound: tbb_exception_ptr allocations"); vp_eptr_mem[n_eptr_alloc++] = p; }
+  if (n == 8) { VP_ASSERT(n_eptr_alloc < VP_MAXEPTR, "VP bound: tbb_exception_ptr allocations"); vp_eptr_live[n_eptr_alloc] = 1; vp_eptr_mem[n_eptr_alloc++] = p; }
+  else { VP_ASSERT(n_node_alloc < VP_MAXNODE, "VP bound: map node allocations"); vp_node_mem[n_node_alloc++] = p; }
   return p; }
 void _ZN3tbb6detail2r117deallocate_memoryEPv(u8* p) {
-  for (int i = 0; i < 4; i++) if (i < n_eptr_alloc && p == vp_eptr_mem[i]) { n_eptr_free++; vp_eptr_mem[i] = 0; free(p); return; }
-  VP_ASSERT(n_eptr_free <= n_eptr_alloc, "tbb_exception_ptr freed twice");
-  free(p); }
+  int hit = 0;
+  for (int i = 0; i < VP_MAXNODE; i++) if (i < n_node_alloc && p == vp_node_mem[i]) { vp_node_mem[i] = 0; return; }   /* a map node (never happens below 1000 entries) */
+  for (int i = 0; i < VP_MAXEPTR; i++) if (i < n_eptr_alloc && p == vp_eptr_mem[i]) {
+    VP_ASSERT(vp_eptr_live[i], "tbb_exception_ptr storage released twice"); vp_eptr_live[i] = 0; hit = 1; }
+  VP_ASSERT(hit, "deallocate_memory of a pointer that is not a live tbb_exception_ptr");
+  n_eptr_free++;
+#ifdef VP_NATIVE
+  free(p);
+#else
+  *(u64*)p = 0;
+#endif
+}
 /* task storage (r1::allocate / r1::deallocate; small_object_pool.cpp is outside the unit): objects of the requested size; the
    pool handle only has to be non-null; allocations and releases are counted and checked (leak / double free / wrong size) */
 #ifndef NTASKMEM
